@@ -316,6 +316,9 @@ func mNewCertPool() *x509.CertPool { return new(x509.CertPool) }
 
 //verif:model (*crypto/x509.CertPool).AppendCertsFromPEM
 func mAppendCerts(p *x509.CertPool, pem []byte) bool {
+	if !strings.HasPrefix(string(pem), "PEM:") { // no parsable certificate in the input (empty, truncated, garbage): nothing is added
+		return false
+	}
 	wPoolG[p] = append(wPoolG[p], wCertIdent(pem))
 	return true
 }
@@ -493,8 +496,16 @@ func mGetgid() int { return 1000 }
 
 //verif:model os.Open
 func mOsOpen(name string) (*os.File, error) {
-	if name == "" {
-		return nil, errors.New("open : no such file or directory")
+	// regular files of the ghost file system, by the exact path string handed to the kernel (the kernel resolves
+	// symbolic links before "..", so "/d/link/../wplugin" and the lexically cleaned "/d/wplugin" are different entries)
+	d, ok := wRegular[name]
+	if !ok {
+		return nil, errors.New("open " + name + ": no such file or directory")
 	}
-	return new(os.File), nil
+	f := new(os.File)
+	wOpenedDigest[f] = d
+	return f, nil
 }
+
+var wRegular = map[string][]byte{"/bin/wplugin": nil} // path -> digest of the file's content (nil: not modelled)
+var wOpenedDigest = map[*os.File][]byte{}
